@@ -47,6 +47,9 @@ type Std1Opts struct {
 	IdleHold   time.Duration
 	Retry      time.Duration
 	Configure  func(p *PeerH) // before AddPeer
+	// Vary lets NewStd1 draw the things the property does not care about: IPv6
+	// instead of IPv4, WithLocalAddress, a non-default port, 4-octet AS numbers.
+	Vary bool
 }
 
 // NewStd1 builds a served one-peer environment. For DirIn the peer is passive
@@ -74,8 +77,42 @@ func NewStd1(w *World, o Std1Opts) *Std1 {
 	if e == nil {
 		return nil
 	}
-	p := e.NewPeer(PeerSpec{RemoteIP: "10.0.0.2", LocalAS: o.LocalAS, RemoteAS: o.RemoteAS, Hold: o.LocalHold,
-		IdleHold: o.IdleHold, ConnectRetry: o.Retry, Passive: o.Passive}, o.RemoteID, o.RemoteHold)
+	remoteIP, localAddr, port, lisAddr := "10.0.0.2", "", 0, "10.0.0.1:179"
+	if o.Vary {
+		if w.Chance(1, 5, "vary-v6") {
+			remoteIP, lisAddr = "fd00:1::2", "[fd00::1]:179"
+			e.LocalIP = "fd00::1"
+			w.Probe("config:ipv6-peer")
+		}
+		if w.Chance(1, 4, "vary-localaddr") {
+			localAddr = e.LocalIP
+			w.Probe("config:local-address")
+		}
+		if w.Chance(1, 4, "vary-port") {
+			port = Pick(w, "vary-portv", 1179, 1, 65535)
+			w.Probe("config:non-default-port")
+		}
+		switch w.Draw(6, "vary-as") {
+		case 1:
+			o.LocalAS = 4200000001
+			w.Probe("config:4-octet-local-as")
+		case 2:
+			o.RemoteAS = 4200000002
+			w.Probe("config:4-octet-remote-as")
+		case 3:
+			o.LocalAS = 23456
+		}
+		if w.Chance(1, 6, "vary-wildcard") {
+			if e.LocalIP == "fd00::1" {
+				lisAddr = "[::]:179"
+			} else {
+				lisAddr = Pick(w, "vary-wild", "0.0.0.0:179", "[::]:179")
+			}
+			w.Probe("config:wildcard-listener")
+		}
+	}
+	p := e.NewPeer(PeerSpec{RemoteIP: remoteIP, LocalAS: o.LocalAS, RemoteAS: o.RemoteAS, Hold: o.LocalHold,
+		IdleHold: o.IdleHold, ConnectRetry: o.Retry, Passive: o.Passive, LocalAddr: localAddr, Port: port}, o.RemoteID, o.RemoteHold)
 	if o.Configure != nil {
 		o.Configure(p)
 	}
@@ -86,7 +123,7 @@ func NewStd1(w *World, o Std1Opts) *Std1 {
 	if o.Dir == DirIn && !o.Passive {
 		p.Site.DialPolicy = func(*DialRec) int { return 2 }
 	}
-	e.Serve("10.0.0.1:179")
+	e.Serve(lisAddr)
 	return &Std1{E: e, P: p, LocalID: o.LocalID, Dir: o.Dir}
 }
 
@@ -215,15 +252,24 @@ func (s *Std1) PriorSession(w *World) bool {
 	}
 	c.SendSeg(MkFrame(MsgUpdate, []byte{0x50, 0x52, 0x49, 0x4f}))
 	w.Quiesce()
-	switch w.Draw(3, "prior-end") {
+	switch w.Draw(4, "prior-end") {
 	case 0:
 		c.FIN()
 	case 1:
 		c.RST()
-	default:
+	case 2:
 		c.Deliver(MkNotif(6, 4, nil))
 		w.Quiesce()
 		c.FIN()
+	default:
+		// a protocol error: the peer is held down for 60 s; wait it out
+		m := AllOnes()
+		m[3] = 0
+		c.Deliver(MkRawHeader(m, 19, 4, nil))
+		w.Quiesce()
+		c.FIN()
+		w.Sleep(61 * time.Second)
+		w.Probe("prior-session-damped")
 	}
 	w.WaitUntil("prior.down", time.Minute, p.Plug.IsDown)
 	w.Quiesce()
